@@ -84,6 +84,10 @@ def gen(rng, n):
             d["DGRAM_SIZE"] = rng.choice([8, 100, 1000])
             if rng.chance(1, 2):
                 d["DGRAM_SEND_BUF"] = rng.choice([1, 1200, 3000])
+            else:       # FIFO loss-free link: the sender waits for every echo
+                d.pop("LOSS", None)
+                d.pop("DUP", None)
+                d["DELAY_MAX"] = d["DELAY_MIN"]
         elif m == 4:    # stop / reset
             d["NUNI"] = max(1, d["NUNI"])
             if rng.chance(1, 2):
